@@ -181,7 +181,9 @@ func runScript(url string, id int, fail string, t0 int, script []scriptEv) (rec,
 			case "pre":
 				rc.Publish(m.Reply, []byte(fmt.Sprintf(`timeout:"%d"`, e[1].(int)*int(tick/time.Millisecond))))
 			case "prebad":
-				rc.Publish(m.Reply, []byte(`timeout:"soon" other:"x"`))
+				// pre-responses that announce no (usable) timeout: a value that is no number, other keys -
+				// also keys that merely end in "timeout"
+				rc.Publish(m.Reply, []byte([]string{`timeout:"soon" other:"x"`, `idletimeout:"1"`, `other:"x" mytimeout:"1"`, `x_timeout:"2" timeout:"never"`}[k%4]))
 			case "resp":
 				switch e[1] {
 				case "result":
